@@ -384,7 +384,7 @@ impl ZooMsg for VecA3 {
     const NAME: &'static str = "FlatVec<[u8;3],u16>";
     fn gen(g: &mut Gen) -> Val {
         let n = g.len();
-        Val::L((0..n).map(|_| Val::L((0..3).map(|_| Val::I(g.int(8, false))).collect())).collect())
+        Val::L((0..n).map(|_| Val::R((0..3).map(|_| Val::I(g.int(8, false))).collect())).collect())
     }
     fn emplace_val<'b>(bytes: &'b mut [u8], v: &Val) -> Result<&'b mut Self, Error> {
         Self::new_in_place(
@@ -393,7 +393,7 @@ impl ZooMsg for VecA3 {
         )
     }
     fn read(&self) -> Val {
-        rd_vec(self, |a| Val::L(a.iter().map(|x| Val::I(*x as i128)).collect()))
+        rd_vec(self, |a| Val::R(a.iter().map(|x| Val::I(*x as i128)).collect()))
     }
     fn tweak(&mut self, g: &mut Gen) {
         tweak_vec(self, g, |g| [g.int(8, false) as u8, 7, g.int(8, false) as u8]);
@@ -935,10 +935,10 @@ impl ZooMsg for ArrTail {
     const NAME: &'static str = "ArrTail";
     fn gen(g: &mut Gen) -> Val {
         let id = g.int(16, false);
-        let on = Val::L((0..4).map(|_| Val::B(g.boolean())).collect());
-        let m = Val::L((0..2).map(|_| Val::T(g.pick(3))).collect());
+        let on = Val::R((0..4).map(|_| Val::B(g.boolean())).collect());
+        let m = Val::R((0..2).map(|_| Val::T(g.pick(3))).collect());
         let n = g.len();
-        let v = Val::L((0..n).map(|_| Val::L(vec![Val::B(g.boolean()), Val::B(g.boolean())])).collect());
+        let v = Val::L((0..n).map(|_| Val::R(vec![Val::B(g.boolean()), Val::B(g.boolean())])).collect());
         Val::R(vec![Val::I(id), on, m, v])
     }
     fn emplace_val<'b>(bytes: &'b mut [u8], v: &Val) -> Result<&'b mut Self, Error> {
@@ -957,9 +957,9 @@ impl ZooMsg for ArrTail {
     fn read(&self) -> Val {
         Val::R(vec![
             Val::I(self.id as i128),
-            Val::L(self.on.iter().map(rd_bool).collect()),
-            Val::L(self.m.iter().map(rd_mode).collect()),
-            rd_vec(&self.v, |a| Val::L(a.iter().map(rd_bool).collect())),
+            Val::R(self.on.iter().map(rd_bool).collect()),
+            Val::R(self.m.iter().map(rd_mode).collect()),
+            rd_vec(&self.v, |a| Val::R(a.iter().map(rd_bool).collect())),
         ])
     }
     fn tweak(&mut self, g: &mut Gen) {
@@ -1072,7 +1072,7 @@ impl ZooMsg for ArrLast {
     const NAME: &'static str = "ArrLast";
     fn gen(g: &mut Gen) -> Val {
         let id = g.int(16, false);
-        Val::R(vec![Val::I(id), Val::L((0..4).map(|_| Val::B(g.boolean())).collect())])
+        Val::R(vec![Val::I(id), Val::R((0..4).map(|_| Val::B(g.boolean())).collect())])
     }
     fn emplace_val<'b>(bytes: &'b mut [u8], v: &Val) -> Result<&'b mut Self, Error> {
         let on = v.field(1);
@@ -1085,7 +1085,7 @@ impl ZooMsg for ArrLast {
         )
     }
     fn read(&self) -> Val {
-        Val::R(vec![Val::I(self.id as i128), Val::L(self.on.iter().map(rd_bool).collect())])
+        Val::R(vec![Val::I(self.id as i128), Val::R(self.on.iter().map(rd_bool).collect())])
     }
     fn tweak(&mut self, g: &mut Gen) {
         self.on[g.pick(4) as usize] = Bool::from(g.boolean());
